@@ -276,6 +276,10 @@ def run(pid, tier, replay_file=None):
     if pid == "C10" and not replay_file:
         import checks_extreme
         ext_cov = checks_extreme.collect(rep, tier)
+    ext01 = {}
+    if pid == "C01" and not replay_file:
+        import checks_extreme
+        ext01 = checks_extreme.collect(rep, tier, pid="C01")
     refs_cov = {}
     if pid == "C20" and not replay_file:
         import checks_refs
@@ -327,6 +331,7 @@ def run(pid, tier, replay_file=None):
         tlc=dict(bfs=bfs, seeds=seed, sim=sim, trace_validation=adj),
         action_witnesses=witnesses,
         drift=dict(drift), independent_random_documents=rand_info, reference_crosscheck=xref,
+        numeric_extremes=ext01,
         drift_events_adjudicated=min(len(ev_index), MAX_EVENTS),
         drift_events_total=len(ev_index),
         model_switches="see spec/Elements.tla, spec/Parser.tla (DeepBool, PlaceholderBySource, ...)",
